@@ -494,7 +494,10 @@ static bool exact_instance(vh::Trace& tr, const Sys& s, vh::Rng& rng, long i, co
     for (int v = 0; v < nv; ++v) worst = std::max(worst, 2 * c.beta * weight_sum(s, c, s.vox[v][0], s.vox[v][1] + s.ny / 2, s.vox[v][2] + s.nx / 2));
     if (worst <= 126) break;
   }
-  const int k = rng.range(0, 3) == 0 ? 1 : rng.range(1, 3 * c.N + (rng.range(0, 3) == 0 ? 4 * c.N : 0));   // the sub-iteration performed
+  const int scaling = c.prior ? 0 : rng.range(0, 2);   // afterwards: 0 nothing, 1 a data-scaled copy, 2 an efficiency-scaled copy
+  // the sub-iteration performed; the first one of a fresh start (where "voxels that cannot be estimated" are set to 0) more often,
+  // in particular for the efficiency-scaled copies (tiny sensitivities)
+  const int k = (scaling == 2 ? rng.coin() : rng.range(0, 3) == 0) ? 1 : rng.range(1, 3 * c.N + (rng.range(0, 3) == 0 ? 4 * c.N : 0));
   pick_relaxation(rng, c, k / c.N);
   static const int ubs[][2] = { { 4, 0 }, { 5, 1 }, { 3, 0 }, { 1, 0 }, { 8, 0 }, { 13, 2 }, { 0, 0 } };
   c.uInf = rng.range(0, 2) == 0;
@@ -621,7 +624,6 @@ static bool exact_instance(vh::Trace& tr, const Sys& s, vh::Rng& rng, long i, co
   if (rng.range(0, 3) == 0) run_once(tr, s, e, c, "single", k - 1, k, k, *image_from(s, lf), sc, false, false);
   remove_outputs(e, k);
   // scale clause (no prior): data, additive term, image and upper bound times 2^j - the same sub-iteration on a fresh object
-  const int scaling = c.prior ? 0 : rng.range(0, 2);   // 0 none, 1 data scaled, 2 efficiencies scaled
   if (scaling == 1) {
     const int j = rng.range(1, 2);
     Cfg c2 = c;
@@ -645,8 +647,8 @@ static bool exact_instance(vh::Trace& tr, const Sys& s, vh::Rng& rng, long i, co
     // j >= -6: the quotient clamp of divide_and_truncate (10^4) is applied to y/(P lambda + a) and (P 1)/(y norm^2), i.e. WITHOUT
     // the efficiencies, so it is not invariant: with y/(P lambda + a) <= 4 and (P 1)/y <= 1 on these instances the scaled
     // quotients 4 * 2^-j and 2^-2j stay below it for j >= -6 (the threshold-free domain named in OSSPS.tla)
-    static const int js[] = { 1, -1, 2, -3, -5, -6, 10, 20, 25, 30, 35, 40 };
-    const int j = js[rng.range(0, 11)];
+    static const int js[] = { 1, -1, 2, -3, -5, -6, 10, 20, 25, 30, 35, 40, 28, 32, 38, 40 };
+    const int j = js[rng.range(0, 15)];
     Cfg c2 = c;
     c2.id = c.id + 2000000;
     c2.uShift = j;
